@@ -69,7 +69,11 @@ def _find_poly_max(p, clip=[-1, 1], cheb=True, take_abs=True, k_max=None,
     # polyder have high power first
     dp = np.polyder(p[::-1])[::-1]
 
-    x0 = np.polynomial.polynomial.polyroots(dp)
+    if len(dp) == 0:
+        # constant polynomial: no critical points, only the ends of the interval
+        x0 = np.array([])
+    else:
+        x0 = np.polynomial.polynomial.polyroots(dp)
     x0 = x0[np.abs(np.imag(x0)) < 1e-4].real # Ok if we add unnecessary points
 
     x0 = [i for i in x0 if (i >= clip[0]) and i <= clip[1] ]
